@@ -68,3 +68,68 @@ Lemma dec_varint_lt bs v r : dec_varint bs = Some (v, r) -> (length r < length b
 Proof.
   intros H. apply dec_varint_suffix in H. destruct H as (p & -> & Hl). rewrite app_length. lia.
 Qed.
+
+(* ---- non-minimal (padded) varints: any encoding a conformant encoder may emit is the n-byte form for some n ---- *)
+(* exactly n bytes: n-1 continuation bytes carrying 7 bits each, then the rest (which must fit 7 bits) *)
+Fixpoint enc_varint_n (n : nat) (v : N) : bytes :=
+  match n with
+  | O => []
+  | S O => [v]
+  | S n' => (v mod 128 + 128) :: enc_varint_n n' (v / 128)
+  end.
+
+Lemma enc_varint_n_SS n v : enc_varint_n (S (S n)) v = (v mod 128 + 128) :: enc_varint_n (S n) (v / 128).
+Proof. reflexivity. Qed.
+
+Lemma dec_enc_n_aux (n : nat) : forall (f : nat) (s acc v : N) (r : bytes),
+  (1 <= n <= f)%nat -> (f <= 10)%nat -> s = 7 * (10 - N.of_nat f) -> v < 2 ^ (7 * N.of_nat n) -> v < 2 ^ (64 - s) ->
+  dec_varint_aux f s acc (enc_varint_n n v ++ r) = Some (acc + v * 2 ^ s, r).
+Proof.
+  induction n as [|n IH]; intros f s acc v r Hn Hf Hs Hv Hv64; [lia|].
+  destruct f as [|f]; [lia|]. destruct n as [|n].
+  - (* the last byte *)
+    cbn [enc_varint_n app dec_varint_aux]. change (2 ^ (7 * N.of_nat 1)) with 128 in Hv.
+    destruct f as [|f'].
+    + assert (s = 63) as -> by lia. change (2 ^ (64 - 63)) with 2 in Hv64. destruct (N.ltb_spec v 2); [reflexivity|lia].
+    + destruct (N.ltb_spec v 128); [reflexivity|lia].
+  - rewrite enc_varint_n_SS. cbn [app dec_varint_aux].
+    destruct f as [|f']; [lia|].
+    destruct (N.ltb_spec (v mod 128 + 128) 128); [lia|].
+    assert (Hp : 2 ^ (7 * N.of_nat (S (S n))) = 128 * 2 ^ (7 * N.of_nat (S n))).
+    { rewrite (Nat2N.inj_succ (S n)), N.mul_succ_r, N.pow_add_r. change (2 ^ 7) with 128. lia. }
+    rewrite IH; try lia.
+    + f_equal. f_equal.
+      replace (v mod 128 + 128 - 128) with (v mod 128) by lia.
+      rewrite N.pow_add_r. change (2 ^ 7) with 128.
+      pose proof (N.div_mod v 128 ltac:(lia)) as Hd.
+      set (q := v / 128) in *. set (m := v mod 128) in *. set (p := 2 ^ s) in *. nia.
+    + assert (Hs7 : 64 - s = 64 - (s + 7) + 7) by lia.
+      rewrite Hs7, N.pow_add_r in Hv64. change (2 ^ 7) with 128 in Hv64.
+      apply N.div_lt_upper_bound; lia.
+Qed.
+
+(* every n-byte form of v (1 <= n <= 10, v fits n*7 bits and 64 bits) decodes to v, whatever follows *)
+Theorem dec_padded_varint (n : nat) (v : N) (r : bytes) :
+  (1 <= n <= 10)%nat -> v < 2 ^ (7 * N.of_nat n) -> v < 2 ^ 64 -> dec_varint (enc_varint_n n v ++ r) = Some (v, r).
+Proof.
+  intros Hn Hv Hv64. unfold dec_varint. rewrite (dec_enc_n_aux n 10 0 0 v r); try lia.
+  - f_equal. f_equal. change (2 ^ 0) with 1. lia.
+  - exact Hv64.
+Qed.
+
+(* the minimal encoding is one of them *)
+Lemma enc_varint_is_some_n f : forall v, (1 <= f)%nat -> v < 2 ^ (7 * N.of_nat f) -> exists n, (1 <= n <= f)%nat /\ enc_varint_aux f v = enc_varint_n n v.
+Proof.
+  induction f as [|f IH]; intros v Hf Hv; [lia|]. cbn [enc_varint_aux].
+  destruct (N.ltb_spec v 128) as [Hlt|Hge]; [exists 1%nat; split; [lia|reflexivity]|].
+  destruct f as [|f']; [change (2 ^ (7 * N.of_nat 1)) with 128 in Hv; lia|].
+  assert (Hp : 2 ^ (7 * N.of_nat (S (S f'))) = 128 * 2 ^ (7 * N.of_nat (S f'))).
+  { rewrite (Nat2N.inj_succ (S f')), N.mul_succ_r, N.pow_add_r. change (2 ^ 7) with 128. lia. }
+  destruct (IH (v / 128) ltac:(lia) ltac:(apply N.div_lt_upper_bound; [lia|]; rewrite <- Hp; exact Hv)) as (n & Hn & En).
+  exists (S n). split; [lia|]. rewrite En. destruct n as [|n]; [lia|]. rewrite enc_varint_n_SS. reflexivity.
+Qed.
+
+Example padded_varint_example :
+  enc_varint_n 3 300 = [172; 130; 0] /\ enc_varint 300 = [172; 2] /\ dec_varint ([172; 130; 0] ++ [7]) = Some (300, [7])
+  /\ dec_varint (enc_varint_n 10 18446744073709551615) = Some (18446744073709551615, []).
+Proof. repeat split; vm_compute; reflexivity. Qed.
